@@ -6,11 +6,15 @@
 #![no_main]
 use common::{FuzzEntry, Stats};
 use libfuzzer_sys::fuzz_target;
-use std::sync::OnceLock;
+use std::sync::{Mutex, OnceLock};
 
 struct Target {
     entry: FuzzEntry,
     env: common::Env,
+    /// Accumulated statistics, dumped every 256 executions to VERIF_FUZZ_STATS (the campaign script
+    /// reads the last dump: a conservative count).
+    stats: Mutex<Stats>,
+    stats_file: Option<String>,
 }
 
 fn target() -> &'static Target {
@@ -29,22 +33,35 @@ fn target() -> &'static Target {
         // libfuzzer-sys installs a hook that aborts on any panic; the checks catch panics of the
         // code under test per case and judge them, so the harness hook replaces it.
         common::install_panic_hook();
-        Target { entry, env }
+        Target { entry, env, stats: Mutex::new(Stats::new(2)), stats_file: std::env::var("VERIF_FUZZ_STATS").ok().map(|f| format!("{f}.{}", std::process::id())) }
     })
 }
 
 fuzz_target!(|data: &[u8]| {
     let t = target();
-    let raw: Vec<u16> = data
-        .chunks(2)
-        .take(t.entry.max_choices)
-        .map(|c| u16::from_le_bytes([c[0], *c.get(1).unwrap_or(&0)]))
-        .collect();
-    let mut st = Stats::new(0);
-    if let Err((reason, case)) = (t.entry.run)(raw, &mut st) {
+    let raw = common::corpus_choices(data, t.entry.max_choices);
+    let mut st = Stats::new(1);
+    st.evaluations = 1;
+    let res = (t.entry.run)(raw, &mut st);
+    {
+        let mut all = t.stats.lock().unwrap();
+        if let Err((reason, _)) = &res {
+            if t.env.is_known(reason) {
+                st.excluded_known += 1;
+            }
+        }
+        all.merge(st);
+        if all.evaluations % 256 == 0 {
+            if let Some(f) = &t.stats_file {
+                let _ = std::fs::write(f, all.summary().to_string());
+            }
+        }
+    }
+    if let Err((reason, _)) = res {
         if t.env.is_known(&reason) || reason.contains("INFRA:") {
             return;
         }
+        let (_, reason, case) = common::shrink_choices(&t.env, &t.entry, common::corpus_choices(data, t.entry.max_choices), 3000);
         let path = t.env.write_replay(&common::Failure {
             part: t.entry.part.to_string(),
             reason: reason.clone(),
